@@ -591,7 +591,7 @@ func (x *gen) sessionLines() {
 	}
 
 	for _, b := range bases {
-		sets := x.setters(r, b, full)
+		sets := x.setters(r, b, full && len(b.keys) <= 12)
 		for si, set := range sets {
 			k0 := keyOf(set, b)
 			// the keys a memo of this setter could be about: the one asked for and the first one reported
@@ -624,25 +624,24 @@ func (x *gen) sessionLines() {
 			chain = append(chain, "@1")
 			chain = append(chain, e2...)
 			plans = append(plans, plan{"clone-chain", chain, []int{2, 0, 1}})
-			// how many of the plans: all of them in the thorough tier; in the quick tier one in-place edit and
-			// one plan with a Clone per setter, sometimes no barrier at all (every setter kind meets every
-			// barrier many times over the trees of a run)
+			// how many of the plans: in the quick tier one in-place edit and one plan with a Clone per setter,
+			// sometimes no barrier at all (every setter kind meets every barrier many times over the trees of
+			// a run); in the thorough tier a fifth of all the others as well (the whole cross product would be
+			// millions of lines)
 			pickIn, pickClone := r.Intn(len(edits)), r.Intn(2*len(edits)+2)
 			for pi, p := range plans {
-				if !full {
-					switch {
-					case p.name == "none":
-						if !r.Chance(1, 4) {
-							continue
-						}
-					case p.name == "edit":
-						if pi-1 != pickIn {
-							continue
-						}
-					default:
-						if pi-1-len(edits) != pickClone {
-							continue
-						}
+				switch {
+				case p.name == "none":
+					if !r.Chance(1, 4) {
+						continue
+					}
+				case p.name == "edit":
+					if pi-1 != pickIn && !(full && r.Chance(1, 5)) {
+						continue
+					}
+				default:
+					if pi-1-len(edits) != pickClone && !(full && r.Chance(1, 5)) {
+						continue
 					}
 				}
 				ops := append([]string(nil), b.build...)
@@ -699,16 +698,14 @@ func (x *gen) sessionLines() {
 		g.Emit(b.head()+strings.Join(ops, ";"), true, append([]string{"session", "session-cursor-outlives-edit-of-other-tree"}, b.tags...)...)
 	}
 
-	// ---- every size 0..600 (quick: every third, the offset moves with the seed): grow by Adds, probe every
-	// key; shrink to exactly the size at which Remove does not yet rebuild ((max*beta+1000)/2000), probe;
-	// one more Remove (the rebuild), probe; Clear (or drain), a few keys again, probe
+	// ---- every size 0..600: grow by Adds, probe every key; shrink to exactly the size at which Remove does
+	// not yet rebuild ((max*beta+1000)/2000), probe; and (quick: for every third size, the offset moves with
+	// the seed) one more Remove (the rebuild), probe; Clear (or drain), a few keys again, probe
 	betas := []int{0, 1, 50, 250, 500, 800, 999, 1000}
-	stride, off := 3, int(r.Intn(3))
-	if full {
-		stride, off = 1, 0
-	}
-	for n := off; n <= 600; n += stride {
-		beta := betas[(n/stride)%len(betas)]
+	off := int(r.Intn(3))
+	for n := 0; n <= 600; n++ {
+		long := full || n%3 == off
+		beta := betas[(n/3+n%3*3)%len(betas)]
 		pat := "adzrbi"[r.Intn(6)]
 		if beta >= 999 && n > 120 && (pat == 'a' || pat == 'd' || pat == 'z' || pat == 'i') {
 			pat = "rb"[r.Intn(2)] // (a vine of hundreds of nodes: every path is printed by the walks)
@@ -717,16 +714,21 @@ func (x *gen) sessionLines() {
 		thr := (n*beta + 1000) / 2000
 		ord := "lhoibBre"[r.Intn(8)]
 		if thr >= 1 && thr < n {
-			ops = append(ops, fmt.Sprintf("R%c:%d:%d", ord, thr, r.Intn(1000)), "Q1", fmt.Sprintf("R%c:%d:%d", ord, thr-1, r.Intn(1000)), "Q2")
+			ops = append(ops, fmt.Sprintf("R%c:%d:%d", ord, thr, r.Intn(1000)), "Q1")
+			if long {
+				ops = append(ops, fmt.Sprintf("R%c:%d:%d", ord, thr-1, r.Intn(1000)), "Q2")
+			}
 		} else if n >= 4 {
 			ops = append(ops, fmt.Sprintf("R%c:%d:%d", ord, n/4, r.Intn(1000)), "Q1")
 		}
-		if n%2 == 0 {
-			ops = append(ops, "~")
-		} else {
-			ops = append(ops, fmt.Sprintf("R%c:0:%d", ord, r.Intn(1000)))
+		if long {
+			if n%2 == 0 {
+				ops = append(ops, "~")
+			} else {
+				ops = append(ops, fmt.Sprintf("R%c:0:%d", ord, r.Intn(1000)))
+			}
+			ops = append(ops, "Tl", "Tm", "Tx", "I0", "F5:0", "O0", "K0=3", fmt.Sprintf("Aa:1:%d:3:0", 1+n%5), "Q2")
 		}
-		ops = append(ops, "Tl", "Tm", "Tx", "I0", "F5:0", "O0", "K0=3", fmt.Sprintf("Aa:1:%d:3:0", 1+n%5), "Q2")
 		g.Emit("B n "+its(beta)+" "+strings.Join(ops, ";"), n >= 2, "session", "size-sweep-0-600")
 	}
 }
